@@ -66,11 +66,9 @@ Definition elem_v1 (item : json) : load_result celem :=
   end.
 
 (* standard-library / third-party codecs are oracles (finite tables supplied by the harness):
-   b64_norm x  = Some (b64encode (b64decode x))  or None when b64decode raises;
-   key_norm k  = Some (hex of the uncompressed P-256 point ecdsa decodes from hex k) or None *)
+   b64_norm x  = Some (b64encode (b64decode x))  or None when b64decode raises *)
 Section WithCodecs.
 Variable b64_norm : str -> option str.
-Variable key_norm : str -> option str.
 
 Definition canon_hex (x : str) : str := match fromhex x with Some b => hex b | None => x end.
 
@@ -290,17 +288,11 @@ Definition elem_to_json (e : celem) : option json :=
             (s "message", JStr (ce_message e)); (s "custom_data", JStr (ce_extra1 e));
             (s "signature", JStr (ce_signature e)); (s "signed_by", ce_signed_by e)])
   | KAttKey =>
-      (* message.get_raw_data(): the first 384 bytes of a buffer that must hold that many;
-         key re-encoded as an uncompressed point *)
-      match fromhex (ce_message e), key_norm (ce_extra1 e) with
-      | Some mb, Some k =>
-          if Nat.ltb (length mb) 384 then None else
-          Some (JObj [(s "name", ce_name e); (s "type", JStr (s "sgx_attestation_key"));
-                (s "message", JStr (hex (firstn 384 mb))); (s "key", JStr k);
-                (s "auth_data", JStr (ce_extra2 e));
-                (s "signature", JStr (ce_signature e)); (s "signed_by", ce_signed_by e)])
-      | _, _ => None
-      end
+      (* since fix 68123f6 the message and the key are written back as they were loaded *)
+      Some (JObj [(s "name", ce_name e); (s "type", JStr (s "sgx_attestation_key"));
+            (s "message", JStr (ce_message e)); (s "key", JStr (ce_extra1 e));
+            (s "auth_data", JStr (ce_extra2 e));
+            (s "signature", JStr (ce_signature e)); (s "signed_by", ce_signed_by e)])
   | KX509 =>
       Some (JObj [(s "name", ce_name e); (s "type", JStr (s "x509_pem"));
             (s "message", JStr (ce_message e)); (s "signed_by", ce_signed_by e)])
